@@ -689,6 +689,15 @@ func (x *Exec) judgeFreshNonce(rq *reqInfo, fresh bool, what string) {
 	}
 }
 
+// dupOK: the step's request datagram may be delivered twice (Step.Dup) - only where nothing else
+// unusual happens in the step, so that both copies are served alike.
+func (x *Exec) dupOK(c *Client, st *Step, lost bool) bool {
+	cfg := &x.w.cfg
+
+	return st.Dup && !lost && st.Defect == "" && !c.Stream && st.Rel == "" && st.Opt == "" && st.Fam == 0 && !st.Retx && cfg.GenFailAt == 0 && cfg.Quota == 0 &&
+		cfg.CallbackSleepS == 0 && !cfg.NoAuth
+}
+
 // ---- Refresh --------------------------------------------------------------------------------
 
 func (x *Exec) opRefresh(st *Step) {
@@ -729,7 +738,9 @@ func (x *Exec) opRefresh(st *Step) {
 	if lost {
 		x.w.srvSock.FailWrites(1)
 	}
+	x.dupNext = x.dupOK(c, st, lost) && !tied
 	rq, before, proceed := x.authExchange(c, ui, m, st, ref.MethodRefresh, "Refresh")
+	x.dupNext = false
 	x.w.srvSock.FailWrites(0)
 	if !proceed {
 		return
@@ -860,7 +871,9 @@ func (x *Exec) opCreatePermission(st *Step) {
 	if lost {
 		x.w.srvSock.FailWrites(1)
 	}
+	x.dupNext = x.dupOK(c, st, lost)
 	rq, _, proceed := x.authExchange(c, ui, m, st, ref.MethodCreatePermission, "CreatePermission")
+	x.dupNext = false
 	x.w.srvSock.FailWrites(0)
 	if !proceed {
 		return
@@ -988,7 +1001,9 @@ func (x *Exec) opChannelBind(st *Step) { //nolint:cyclop
 	if lost {
 		x.w.srvSock.FailWrites(1)
 	}
+	x.dupNext = x.dupOK(c, st, lost)
 	rq, before, proceed := x.authExchange(c, ui, m, st, ref.MethodChannelBind, "ChannelBind")
+	x.dupNext = false
 	x.w.srvSock.FailWrites(0)
 	if !proceed {
 		return
